@@ -20,12 +20,17 @@ from . import a_common as A
 from . import c05
 
 FSX = os.path.join(core.BIN, "fsx")
+RANGES = ["whole", "first_byte", "middle", "at_eof_1", "from_eof", "sentinel_1g"]
 LOCKER = r"""
-import fcntl, sys
+import fcntl, os, sys
 fs = []
-for p in sys.argv[1:]:
-    f = open(p, "r+b")
-    fcntl.lockf(f, fcntl.LOCK_EX | fcntl.LOCK_NB)
+for spec in sys.argv[1:]:
+    kind, rng, p = spec.split(":", 2)
+    f = open(p, "r+b" if kind == "w" else "rb")
+    n = os.fstat(f.fileno()).st_size
+    start, length = {"whole": (0, 0), "first_byte": (0, 1), "middle": (n // 2, 1), "at_eof_1": (n, 1),
+                     "from_eof": (n, 0), "sentinel_1g": (1 << 30, 1)}[rng]
+    fcntl.lockf(f, (fcntl.LOCK_EX if kind == "w" else fcntl.LOCK_SH) | fcntl.LOCK_NB, length, start, 0)
     fs.append(f)
 sys.stdout.write("ready\n"); sys.stdout.flush()
 sys.stdin.read()
@@ -33,10 +38,14 @@ sys.stdin.read()
 
 
 class Locker:
-    def __init__(self, paths):
+    """a separate process holding fcntl locks: specs are (path, 'w'|'r', range name)"""
+
+    def __init__(self, specs):
         self.p = None
-        if paths:
-            self.p = subprocess.Popen([sys.executable, "-c", LOCKER] + list(paths), stdin=subprocess.PIPE, stdout=subprocess.PIPE)
+        specs = [(x, "w", "whole") if isinstance(x, str) else x for x in specs]
+        if specs:
+            self.p = subprocess.Popen([sys.executable, "-c", LOCKER] + ["%s:%s:%s" % (k, r, p) for p, k, r in specs],
+                                      stdin=subprocess.PIPE, stdout=subprocess.PIPE)
             line = self.p.stdout.readline()
             if line.strip() != b"ready":
                 raise RuntimeError("lock helper failed")
@@ -60,15 +69,19 @@ def gen_scenario(rng, sid, base, n, hardlinked_victims):
     return A.Scenario(sid, base, [{"content": content, "members": members}], move_dir="out")
 
 
-def run_locked(env, scn, op, locked_rel, no_lock, groups):
-    """one run of the binary while the helper holds locks on the members named in locked_rel"""
+def run_locked(env, scn, op, locked_rel, no_lock, groups, kind="w", rng="whole", readonly=(), drop_caps=False):
+    """one run of the binary while the helper holds locks (read / write, on the named byte range) on the members
+    named in locked_rel; members in `readonly` get mode 0444 and the binary is launched without CAP_DAC_OVERRIDE"""
     scn.build()
+    for r_ in readonly:
+        os.chmod(os.path.join(scn.root, r_), 0o444)
     inv0 = A.inventory(scn.base)
     cmds = A.derive_cmds(op, groups, inv0, scn.dir_arg())
     paths = [os.path.join(scn.root, r) for r in locked_rel]
-    lk = Locker(paths)
+    lk = Locker([(p, kind, rng) for p in paths])
     try:
-        r = A.run_shim(env["fclones"], env["shim"], A.cli_args(op, scn, no_lock), scn.report, scn.base, sim_ficlone=(op == "dedupe"))
+        r = A.run_shim(env["fclones"], env["shim"], A.cli_args(op, scn, no_lock), scn.report, scn.base, sim_ficlone=(op == "dedupe"),
+                       drop_caps=drop_caps)
     finally:
         lk.close()
     c = c05.Case()
@@ -88,8 +101,25 @@ def run_locked(env, scn, op, locked_rel, no_lock, groups):
     c.queries = sorted(qs)
     locked_inos = [inv0[p][1] for p in paths]
     c.line = A.model_line(c.sl, inv0, cmds, oracle, None, c.queries, locked_inos)
-    c.extra = {"locked": list(locked_rel), "locked_paths": paths, "locked_inos": set(locked_inos), "no_lock": no_lock}
+    c.extra = {"locked": list(locked_rel), "locked_paths": paths, "locked_inos": set(locked_inos), "no_lock": no_lock,
+               "lock_kind": kind, "lock_range": rng, "readonly": list(readonly), "drop_caps": drop_caps}
     return c
+
+
+def flock_args_ok(c):
+    """the struct flock fclones passes to fcntl(F_SETLK): a WRITE lock on the WHOLE file (l_whence = SEEK_SET, l_start = 0,
+    l_len = 0 = up to whatever the file grows to).  This is what makes "any foreign lock on any range conflicts" (the
+    model's per-inode lock table) a faithful description."""
+    bad = []
+    for x in c.calls:
+        fl = x.get("flock")
+        if fl is None:
+            continue
+        want_type = "1" if x["kind"] == "lock" else "2"          # F_WRLCK = 1, F_UNLCK = 2
+        if (fl.get("type"), fl.get("whence"), fl.get("start"), fl.get("len")) != (want_type, "0", "0", "0"):
+            bad.append("%s: fcntl(F_SETLK) called with l_type=%s l_whence=%s l_start=%s l_len=%s (expected %s, 0, 0, 0)"
+                       % (x["text"], fl.get("type"), fl.get("whence"), fl.get("start"), fl.get("len"), want_type))
+    return bad
 
 
 def lock_oracle(c):
@@ -100,10 +130,28 @@ def lock_oracle(c):
     for cm in c.cmds:
         a = cm["a"]
         is_locked = inv0[a][1] in c.extra["locked_inos"]
+        unwritable = c.extra.get("drop_caps") and os.path.relpath(a, c.scn.root) in c.extra.get("readonly", ())
+
+        def is_done():
+            if c.op in ("remove", "move"):
+                return a not in inv1
+            if c.op == "softlink":
+                return inv1.get(a, ("-",))[0] == "L"
+            if c.op == "link":
+                return inv1.get(a, ("-",))[0] == "F" and inv1[a][1] == inv0[cm["t"]][1]
+            return inv1.get(a, ("-",))[0] == "F" and inv1[a][3] == inv0[a][3] and summ["processed"] is not None and \
+                not any(A.pct(a) in l or a in l for l in summ["warn_lines"])
+        if unwritable and (c.extra["no_lock"] or not is_locked):
+            # a file the user may not open for writing and that nobody has locked (or --no-lock): whether the operation
+            # succeeds depends on its own permission needs; C20 demands nothing, only the count must be consistent
+            if not is_done():
+                refused += 1
+            continue
         if is_locked and not c.extra["no_lock"]:
             refused += 1
             if inv1.get(a) != inv0[a]:
-                bad.append(("locked_file_touched", "%s is write-locked by another process and was changed by `%s`: %r -> %r" % (a, c.op, inv0[a], inv1.get(a))))
+                bad.append(("locked_file_touched", "%s is locked by another process (%s lock, range %s) and was changed by `%s`: %r -> %r"
+                            % (a, "write" if c.extra["lock_kind"] == "w" else "read", c.extra["lock_range"], c.op, inv0[a], inv1.get(a))))
             if not any(A.pct(a) in l or a in l for l in summ["warn_lines"]):
                 bad.append(("locked_file_not_reported", "no warning names the locked file %s" % a))
         else:
@@ -125,8 +173,9 @@ def lock_oracle(c):
     return bad
 
 
-def api_level(ctx, env):
-    """maybe_lock(path, lock) through the verif hook, on a locked and an unlocked file"""
+def api_level(ctx, env, caps_ok):
+    """maybe_lock(path, lock) through the verif hook: locked / unlocked / through a symlink / missing files; every foreign
+    range x read|write on a non-empty and on an EMPTY file; an unwritable (0444) file with the DAC capabilities dropped"""
     d = os.path.join(ctx.scratch, "api")
     os.makedirs(d, exist_ok=True)
     files = []
@@ -146,17 +195,55 @@ def api_level(ctx, env):
     want_on = ["err WouldBlock", "ok 1", "err WouldBlock", "ok 1", "err WouldBlock", "err NotFound"]
     want_off = ["ok 0"] * 6
     want_after = ["ok 1", "ok 1", "ok 1", "ok 1", "ok 1", "err NotFound"]
-    for name, got, want in (("lock=true while held", on, want_on), ("lock=false while held", off, want_off), ("lock=true after release", after, want_after)):
-        for p, g, w in zip(probe, got, want):
-            ctx.count()
-            ctx.bump("api_maybe_lock", name + ": " + w)
-            if g != w:
-                ctx.violation({"kind": "maybe_lock_api", "case": name}, "maybe_lock(%s) %s returned %r, expected %r" % (p, name, g, w),
-                              {"path": p, "got": g, "want": w, "replay_cmd": "%s lock 1" % FSX}, found_input=True)
+    checks = [(name, p, g, w) for name, got, want in (("lock=true while held", on, want_on), ("lock=false while held", off, want_off),
+                                                       ("lock=true after release", after, want_after))
+              for p, g, w in zip(probe, got, want)]
+    # foreign lock ranges
+    full = os.path.join(d, "full")
+    empty = os.path.join(d, "empty")
+    open(full, "wb").write(b"0123456789")
+    open(empty, "wb").close()
+    for path, label in ((full, "10-byte file"), (empty, "empty file")):
+        for kind in ("w", "r"):
+            for rng in RANGES:
+                lk = Locker([(path, kind, rng)])
+                try:
+                    got = core.run_lines(FSX, [A.pct(path)], args=["lock", "1"])[0]
+                finally:
+                    lk.close()
+                ctx.bump("api_foreign_lock_range", "%s/%s/%s" % (label, "write" if kind == "w" else "read", rng))
+                checks.append(("foreign %s lock on range %s of the %s" % ("write" if kind == "w" else "read", rng, label), path, got, "err WouldBlock"))
+    # a file the user may not open for writing: the probe itself fails, the command must not proceed
+    if caps_ok:
+        ro = os.path.join(d, "readonly")
+        open(ro, "wb").write(b"ro")
+        os.chmod(ro, 0o444)
+        for held in (False, True):
+            lk = Locker([(ro, "w", "whole")] if held else [])
+            try:
+                p = subprocess.run([FSX, "lock", "1"], input=(A.pct(ro) + "\n").encode(), stdout=subprocess.PIPE, stderr=subprocess.PIPE,
+                                   preexec_fn=A.drop_dac_caps, timeout=30)
+                got = p.stdout.decode().strip()
+            finally:
+                lk.close()
+            checks.append(("0444 file, CAP_DAC_OVERRIDE dropped, foreign lock %s" % ("held" if held else "absent"), ro, got, "err PermissionDenied"))
+    for name, p, g, w in checks:
+        ctx.count()
+        ctx.bump("api_maybe_lock", (name if not name.startswith("foreign") else "foreign lock on a byte range") + ": " + w)
+        ctx.distinct(("api", name, p), True)
+        if g != w:
+            ctx.violation({"kind": "maybe_lock_api", "case": name.split(" of the ")[0]}, "maybe_lock(%s) with %s returned %r, expected %r" % (p, name, g, w),
+                          {"path": p, "case": name, "got": g, "want": w, "replay_cmd": "%s lock 1   (stdin: the path; helper: vlib/props/c20.py LOCKER)" % FSX},
+                          found_input=True)
 
 
 def run(ctx):
-    ctx.rule = ("one group of n = 2..4 identical files (first retained, n-1 victims; one variant with two victims hard-linked); a helper "
+    ctx.rule = ("foreign lock = fcntl lock held by a separate process: write (exclusive) on the whole file for the subset sweep; for n = 2 "
+                "additionally every byte range {whole, first byte, a middle byte, [EOF,EOF+1), [EOF,inf), a sentinel byte at 1 GiB} x {write, "
+                "read} on each operation, and a victim with mode 0444 while the binary runs without CAP_DAC_OVERRIDE/CAP_DAC_READ_SEARCH "
+                "(locked / unlocked, with / without --no-lock); the struct flock of every fcntl(F_SETLK) call of fclones is logged by the shim "
+                "and must be (F_WRLCK, SEEK_SET, 0, 0); API level: the same ranges on a 10-byte and on an EMPTY file. "
+                "one group of n = 2..4 identical files (first retained, n-1 victims; one variant with two victims hard-linked); a helper "
                 "process holds fcntl write locks on every subset of the victims (and, separately, on the retained file) while the real "
                 "binary runs remove / link / link --soft / dedupe (FICLONE simulated by the shim) / move, with and without --no-lock; "
                 "a case = one run; non-trivial = at least one member locked")
@@ -170,7 +257,9 @@ def run(ctx):
     model = core.build_model("A")
     core.build_harness(["fsx"])
     env = {"fclones": core.build_fclones(), "shim": core.build_shim()}
-    api_level(ctx, env)
+    caps_ok = A.caps_can_be_dropped(ctx.scratch)
+    ctx.extra["cap_dac_override_dropped_for_readonly_scenarios"] = caps_ok
+    api_level(ctx, env, caps_ok)
 
     if ctx.replay:
         rp = json.load(open(ctx.replay))
@@ -192,11 +281,23 @@ def run(ctx):
         subsets.append(["a/k0"])                       # the retained file is never probed
         if ctx.replay:
             rp = json.load(open(ctx.replay))
-            return [run_locked(env, scn, op, rp["locked"], rp["no_lock"], groups)]
+            return [run_locked(env, scn, op, rp["locked"], rp["no_lock"], groups, kind=rp.get("lock_kind", "w"), rng=rp.get("lock_range", "whole"),
+                               readonly=rp.get("readonly", ()), drop_caps=rp.get("drop_caps", False))]
         out = []
         for sub in subsets:
             for no_lock in (False, True):
                 out.append(run_locked(env, scn, op, sub, no_lock, groups))
+        if n == 2 and not hl:
+            # the foreign lock's byte range and mode: fclones locks the WHOLE file, so every one of them must conflict
+            for kind in ("w", "r"):
+                for rng in RANGES:
+                    if (kind, rng) != ("w", "whole"):
+                        out.append(run_locked(env, scn, op, ["b/v1"], False, groups, kind=kind, rng=rng))
+            # a victim the user may not open for writing (0444, DAC capabilities dropped): the probe fails, the file is left alone
+            if caps_ok:
+                for locked in ([], ["b/v1"]):
+                    for no_lock in (False, True):
+                        out.append(run_locked(env, scn, op, locked, no_lock, groups, kind="w", readonly=["b/v1"], drop_caps=True))
         return out
 
     with ThreadPoolExecutor(max_workers=core.NCPU) as ex:
@@ -204,6 +305,7 @@ def run(ctx):
     cases = [(c, plan[i]) for i, r in enumerate(res) for c in r]
     outs = core.run_lines_parallel(model, [c.line for c, _ in cases])
     corr = []
+    flock_bad = []
     for (c, (n, hl, op)), o in zip(cases, outs):
         ctx.count()
         nl = len(c.extra["locked"])
@@ -213,14 +315,22 @@ def run(ctx):
         ctx.bump("locked_members", "retained" if c.extra["locked"] == ["a/k0"] else nl)
         ctx.bump("no_lock_flag", c.extra["no_lock"])
         ctx.bump("hardlinked_victims", hl)
+        if nl:
+            ctx.bump("foreign_lock", "%s/%s" % ("write" if c.extra["lock_kind"] == "w" else "read", c.extra["lock_range"]))
+        if c.extra["readonly"]:
+            ctx.bump("victim_mode_0444_without_CAP_DAC_OVERRIDE", "locked" if nl else "unlocked")
 
         def payload(c=c, n=n, hl=hl, op=op):
             d = c05.describe(c)
             d.update({"n": n, "hardlinked_victims": hl, "op": op, "locked": c.extra["locked"], "no_lock": c.extra["no_lock"],
+                      "lock_kind": c.extra["lock_kind"], "lock_range": c.extra["lock_range"], "readonly": c.extra["readonly"],
+                      "drop_caps": c.extra["drop_caps"],
                       "lock_helper": "python3 -c <fcntl.lockf(LOCK_EX|LOCK_NB) on the listed members> (vlib/props/c20.py LOCKER)"})
             return d
         for kind, text in lock_oracle(c):
             ctx.violation({"kind": kind, "op": op}, "C20 violated by the implementation: " + text, payload(), found_input=True)
+        for text in flock_args_ok(c):
+            flock_bad.append((c, text, payload))
         try:
             mo = A.parse_model_out(o)
         except Exception as e:
@@ -249,6 +359,12 @@ def run(ctx):
     if os.environ.get("VERIF_DEBUG"):
         for c, what, d, _ in corr[:int(os.environ["VERIF_DEBUG"])]:
             core.log("DISAGREE %s locked=%s no_lock=%s %s: %s" % (c.op, c.extra["locked"], c.extra["no_lock"], what, d))
+    if flock_bad and not any(v[3] for v in ctx.violations):
+        c, text, payload = flock_bad[0]
+        rp = payload()
+        rp["correspondence"] = "struct flock passed to fcntl(F_SETLK) as logged by the shim vs the whole-file write lock the model's LockW stands for"
+        ctx.violation({"kind": "lock_not_whole_file", "op": c.op}, "fclones does not request a whole-file write lock (%d calls), first: %s; no foreign lock "
+                      "range explored was missed" % (len(flock_bad), text), rp, found_input=False)
     if corr:
         c, what, d, payload = corr[0]
         rp = payload()
